@@ -156,21 +156,27 @@ def check(repo, res, tier):
             D = SymArr.symbols("D", (n_t, 2))
             seen = {}
 
-            def jac(me_, theta=None, sens_output=False, full_output=False, method=None, _seen=seen):
-                _seen["jac"] = (theta, sens_output, full_output, method)
-                if full_output:
-                    return (Tok("jac"), {"sens": X.copy(), "diff_loss": D, "resid": Tok("resid")})
-                return (Tok("jac"), X.copy())
+            # the integrations behind the gradient are interpreted from their own source (jac / jacIV); only the library boundary - the
+            # integrator - and the loss kernel are replaced
+            x0 = SymArr.symbols("x0", (nS,))
+            me.attrs.update({"_x0": x0, "_t": [0.0, 1.0, 2.5][:n_t + 1] if n_t + 1 <= 3 else [0.0] + [1.0 + 0.5 * k_ for k_ in range(n_t)], "_theta": Tok("theta-installed")})
+            me.attrs["_ode"].attrs.update({"__open__": True, "_intName": None})
             lossobj = Obj("Kernel")
             me.attrs["_lossObj"] = lossobj
+
+            def integ(func, jac, x0, t0, t, args=(), includeOrigin=False, full_output=False, method=None, nsteps=10000, _seen=seen):
+                _seen["integ"] = _seen.get("integ", 0) + 1
+                return (X.copy(), {"info": Tok("info")}) if full_output else X.copy()
+
+            def set_param(m_, th, _seen=seen):
+                _seen["theta"] = th
 
             def diff_loss(k_, yhat, *a, _seen=seen, **kw):
                 _seen["diff_loss_arg"] = yhat
                 return D
             summ2, types2 = summaries(bl, repo, chain + ("_sensToGradWithoutIndex", "_sensToGradIVWithoutIndex", "_sensToJTJWithoutIndex", "sens_to_jtj"))
-            summ2["Loss.jac"] = jac
-            summ2["Loss.jacIV"] = jac
-            summ2["Kernel.diff_loss"] = diff_loss
+            summ2.update({"ode_utils.integrateFuncJac": integ, "Loss._setParam": set_param, "Loss._setParamStateInput": set_param,
+                          "set:Model.parameters": lambda o, v: None, "Kernel.residual": lambda k_, y_, *a, **kw: Tok("resid"), "Kernel.diff_loss": diff_loss})
             ab = Abs({}, types2, summ2, me)
             tag = "%s(full_output=%s)" % (name, full)
             try:
@@ -191,8 +197,10 @@ def check(repo, res, tier):
                 wantcols = X[:, st_idx]
                 if not (isinstance(arg, SymArr) and arg.same(wantcols)):
                     problems.append("diff_loss is evaluated on %s, not on the observed-state columns of the integration" % (arg,))
-            if seen.get("jac", (None,))[0] != Tok("theta"):
-                problems.append("theta is not forwarded to the sensitivity integration")
+            if seen.get("theta") != Tok("theta"):
+                problems.append("theta is not installed before the sensitivity integration")
+            if seen.get("integ") != 1:
+                problems.append("the gradient is assembled from %s integrations, expected one" % seen.get("integ"))
             res.check(not problems, "R-SLOT", f, tag, "gradient = chain rule on the same integration's states and sensitivities, parameters first then initial values",
                       "; ".join(problems), node=f.node)
 
@@ -211,8 +219,8 @@ def check(repo, res, tier):
                 me.attrs["_lossObj"] = Obj("Kernel")
                 rec = {}
 
-                def integ(func, jac, x0_, t0, t, **kw):
-                    rec["args"] = (func, jac, x0_, t0, list(t), dict(kw))
+                def integ(func, jac, x0, t0, t, args=(), **kw):
+                    rec["args"] = (func, jac, x0, t0, list(t), dict(kw))
                     return (X.copy(), {"info": Tok("info")}) if kw.get("full_output") else X.copy()
                 summ3, types3 = summaries(bl, repo, chain)
                 summ3.update({"ode_utils.integrateFuncJac": integ, "Loss._setParam": lambda m_, th: None, "Loss._setParamStateInput": lambda m_, th: None,
